@@ -511,6 +511,7 @@ def _match_rows(Y, cand, tol):
 
 
 class KnnFilter(Sub):
+    fuzz_runs = 10000     # thorough tier: additional coverage-guided (atheris) campaign, same strategy / oracle
     name = "knn_filter"
     n = {"quick": 4000, "thorough": 100000}
 
